@@ -1595,6 +1595,46 @@ impl Sim {
                 }
                 self.server_frame(false);
             }
+            Step::ServerStopAbrupt => {
+                if !self.cfg.faults || !self.running {
+                    return;
+                }
+                // a server that was started and is stopped again before it ran a single frame never noticed that it was
+                // running (its "just stopped" edge is observed frame by frame): not a session in the sense of the property
+                if self.need_first_tick {
+                    return self.step(&Step::ServerStop);
+                }
+                self.flags.insert("server_restart");
+                self.flags.insert("server_stopped_with_clients_connected");
+                for i in 0..nclients {
+                    // what `disconnect` would note about the moment the session ends
+                    let c = &self.clients[i];
+                    if c.connected && c.s2c[0].len() > 0 {
+                        self.flags.insert("disc_updates_in_flight");
+                    }
+                    if c.connected && c.s2c[1].len() > 0 {
+                        self.flags.insert("disc_mutations_in_flight");
+                    }
+                }
+                self.server.world_mut().resource_mut::<RepliconServer>().set_running(false);
+                self.running = false;
+                self.squeue.clear();
+                for e in &mut self.semits {
+                    if e.pending {
+                        e.pending = false;
+                        e.must.clear();
+                        e.may.clear();
+                    }
+                }
+                // the library's own reset despawns the connected clients
+                self.server_frame(false);
+                for i in 0..nclients {
+                    if self.clients[i].connected && self.server.world().get_entity(self.clients[i].id).is_ok() {
+                        self.fail("C09.client_entity_survives_stop", format!("the entity of client {i} is still there after the server stopped"));
+                    }
+                    self.disconnect(i);
+                }
+            }
             Step::ServerStart => {
                 if !self.cfg.faults || self.running {
                     return;
